@@ -32,8 +32,9 @@ META = {
             "quadratic QUSOMatrix models over 3 spins (and relabelled QUSO/QUBO forms, cubic models) x all initial states: value never increases and equals the reference descent when no tie "
             "occurs; all random visiting tapes. Reproducibility on the stock build for 4 seeds in-process and across processes. Generator seam: REPO's random.c is linked against a "
             "generator whose first word is an argument; rand_int(rng, N) (N in {2,3,4,5,8} quick / 2..16 thorough) and rand_double are evaluated for ALL 2^32 words: in range, every site "
-            "with probability 1/N +- 1e-8, rand_double = word * 2^-32 (the assumption behind the cut menus).",
-    "note": "The distributional claim is exact conditional on the vendored pcg_basic.c delivering uniform words / unbiased bounded integers (its rejection loop is bypassed by the shim). "
+            "with probability 1/N +- 1e-8, rand_double = word * 2^-32 (the assumption behind the cut menus). Vendored generator: for every seed < 2^24 (quick) / every non-negative int seed "
+            "(thorough) the first 4 words of rand_init(seed) equal an independent implementation of the published PCG32 (if they do not: top-4-bit frequencies over the seeds within 0.5% of 1/16).",
+    "note": "The distributional claim is exact conditional on PCG32 delivering uniform words (the vendored copy is compared with the published algorithm; its bounded-integer rejection loop is bypassed by the shim and re-implemented in the seam driver). "
             "Part 1 cuts words at acceptance thresholds only; a kernel that draws its sites from a raw word is enumerated twice with different probes and decided only if both agree "
             "(else counted undecided; the seam part decides the site law). Bounded: <=3 spins, <=6 update steps.",
 }
@@ -663,6 +664,42 @@ def _seam_probe(N):
 def check_seam(case, st):
     """rand_int(N) resp. rand_double as a function of the generator word, for every one of the 2^32 words."""
     W = float(1 << 32)
+    if case["what"] == "generator":
+        # the vendored generator, seeded the way random.c seeds it, for every seed below the bound
+        exe = cbuild.build_pcgseam()
+        S = 1 << case["log2_seeds"]
+        chunks = 8
+        edges = [S * i // chunks for i in range(chunks + 1)]
+        procs = [subprocess.Popen([exe, str(lo), str(hi)], stdout=subprocess.PIPE, stderr=subprocess.PIPE, text=True) for lo, hi in zip(edges[:-1], edges[1:])]
+        outs = []
+        for pr in procs:
+            o, e = pr.communicate()
+            if pr.returncode != 0:
+                raise HarnessError("pcgseam failed (%d): %s" % (pr.returncode, e[-1000:]))
+            outs.append(json.loads(o))
+        nw = outs[0]["words"]
+        st.traces += S
+        st.transitions += S * nw
+        st.nontrivial += 1
+        mism = sum(o["mismatches"] for o in outs)
+        buckets = [[sum(o["buckets"][i][b] for o in outs) for b in range(16)] for i in range(nw)]
+        worst = max(abs(c / S - 1 / 16) for row in buckets for c in row)
+        st.extra["seam_generator"] = {"seeds": S, "words_per_seed": nw, "words_differing_from_PCG32_reference": mism,
+                                      "max_deviation_of_a_top-4-bit_bucket_frequency_from_1/16": worst}
+        if not mism:
+            st.outcomes["seam: generator stream = PCG32 reference for every seed < 2^%d" % case["log2_seeds"]] += 1
+            return
+        f = [o for o in outs if o["mismatches"]][0]
+        if worst > 0.005:
+            i, b = max(((i, b) for i in range(nw) for b in range(16)), key=lambda ib: abs(buckets[ib[0]][ib[1]] / S - 1 / 16))
+            st.violation("seam|generator-not-equidistributed", case,
+                         "C12 the generator as seeded by rand_init: over all %d seeds < 2^%d, word %d of the stream has its top four bits equal to %d for a fraction %.4f of the "
+                         "seeds (1/16 = 0.0625 expected); first difference from the PCG32 reference at seed %d, word %d (%d instead of %d). The distribution over seeds of every "
+                         "random decision that consumes this word is not the Metropolis one"
+                         % (S, case["log2_seeds"], i, b, buckets[i][b] / S, f["first_seed"], f["first_pos"], f["first_got"], f["first_want"]))
+        else:
+            st.outcomes["seam: generator differs from the PCG32 reference but its first words are equidistributed over the seeds -> not judged"] += 1
+        return
     if case["what"] == "double":
         outs = _seam_run(["double"])
         st.traces += 1 << 32
@@ -748,6 +785,7 @@ def gen_cases(tier):
         yield from local_cases(tier)
         yield from joint_cases(tier)
         yield from zero_cases(tier)
+        yield {"part": "seam", "what": "generator", "log2_seeds": 24 if tier == "quick" else 31}
         yield {"part": "seam", "what": "double"}
         for n in ((2, 3, 4, 5, 8) if tier == "quick" else range(2, 17)):
             yield {"part": "seam", "what": "int", "N": n}
@@ -766,7 +804,7 @@ def run(ctx):
                   "seeds": SEEDS, "tolerance": TOL}
     ctx.rule = ("case = (model, order, schedule, initial state) -> all tapes; or one zero-temperature model -> all initial states; "
                 "states = distinct complete tapes (leaves); transitions = choice points expanded; non-trivial = more than one tape")
-    ctx.assumptions = ["vendored pcg_basic.c yields uniform 32-bit words and unbiased bounded integers (trusted; bypassed by the shim)"]
+    ctx.assumptions = ["the published PCG32 algorithm yields uniform 32-bit words (the vendored copy is compared with it word for word; pcg32_boundedrand_r itself is bypassed by the shim and re-implemented in the seam driver)"]
     explore_cases(ctx, gen_cases(ctx.tier), check, label="C12", nshards=NWORKERS * 8)
 
 
@@ -777,6 +815,6 @@ def replay(case):
     if case["part"] == "repro":
         base = {k: case[k] for k in ("part", "which", "model") if k in case}
     if case["part"] == "seam":
-        base = {k: case[k] for k in ("part", "what", "N") if k in case}
+        base = {k: case[k] for k in ("part", "what", "N", "log2_seeds") if k in case}
     check(base, st)
     return [(s, m) for s, c, m in st.viol]
